@@ -1142,7 +1142,9 @@ func (s *Server) publishToClient(cl *Client, sub packets.Subscription, pk packet
 		atomic.AddInt64(&s.Info.MessagesDropped, 1)
 		cl.ops.hooks.OnPublishDropped(cl, pk)
 		if out.FixedHeader.Qos > 0 {
-			cl.State.Inflight.Delete(out.PacketID) // packet was dropped due to irregular circumstances, so rollback inflight.
+			if ok := cl.State.Inflight.Delete(out.PacketID); ok { // packet was dropped due to irregular circumstances, so rollback inflight.
+				atomic.AddInt64(&s.Info.Inflight, -1)
+			}
 			cl.State.Inflight.IncreaseSendQuota()
 		}
 		return out, packets.ErrPendingClientWritesExceeded
